@@ -241,12 +241,7 @@ func brRun(in *brInput) *brObs {
 							for _, pb := range blocks {
 								ans.Forks = append(ans.Forks, fkFromPB(pb.Block))
 							}
-							sort.SliceStable(ans.Forks, func(i, j int) bool {
-								if ans.Forks[i].Num != ans.Forks[j].Num {
-									return ans.Forks[i].Num < ans.Forks[j].Num
-								}
-								return ans.Forks[i].ID < ans.Forks[j].ID
-							})
+							canonForks(ans.Forks) // hubh.go: only runs of equal height are reordered (W1 audit)
 						}, true)
 					}
 				}()
